@@ -133,14 +133,16 @@ class NegativeFluentRemover(IdentityDagWalker):
                 if left.is_constant():
                     left_list = [left.constant_value()]
                 else:
-                    left_list = list(self._problem.objects(type_here))
-                right_list = list(self._problem.objects(type_here))
+                    left_list = list(self._problem.objects(left.type))
+                # each operand ranges over the objects of its own type
+                # (one of the two types can be a subtype of the other)
+                right_list = list(self._problem.objects(right.type))
                 # if there are no objects of the usertype we cannot compile this
                 if (len(left_list) <= 0) or (len(right_list) <= 0):
                     raise UPUsageError(
                         f"No objects present for the usertype {type_here}"
                     )
-                if len(left_list) == 1 and len(right_list) == 1:
+                if len(left_list) == 1 and left_list == right_list:
                     # there is only one object in the problem, the values will always be equal
                     return self._env.expression_manager.FALSE()
                 exps = []
